@@ -336,6 +336,13 @@ where
         // are all woken on every new write opportunity.
         self.notifier_read.wake_read_stream(id);
 
+        // A dropped substream can no longer be read from, so it must not
+        // keep blocking the reading of new frames for all other substreams.
+        if self.blocking_stream == Some(id) {
+            self.blocking_stream = None;
+            ArcWake::wake_by_ref(&self.notifier_read);
+        }
+
         // Remove the substream, scheduling pending frames as necessary.
         match self.substreams.remove(&id) {
             None => {}
